@@ -423,9 +423,6 @@ pub fn parse_propset(b: &[u8], strict: bool) -> Result<PropSet, String> {
                 if s[l - 1] != 0 {
                     return Err(format!("property {}: LPSTR not terminated", id));
                 }
-                if s[..l - 1].contains(&0) {
-                    return Err(format!("property {}: LPSTR length {} covers an embedded terminator", id, l));
-                }
                 (PVal::Str(s[..l - 1].to_vec()), 8 + ((l + 3) & !3))
             }
             64 => {
